@@ -107,7 +107,18 @@ def evaluate(op, L, R):
     return None
 
 
-def agrees(node_form, ref):
+def magnitude_scale(*forms):
+    """Largest absolute operand value: the absolute tolerance of a sum/difference scales with its operands."""
+    m = 0.0
+    for f in forms:
+        if f[0] == "Q":
+            m = max(m, abs(f[2]))
+        elif f[0] == "H" and f[2]:
+            m = max(m, max(abs(x) for x in f[2].values()))
+    return m
+
+
+def agrees(node_form, ref, scale=0.0):
     if ref[0] == "DIM-MISMATCH":
         return False, "operands of different dimensions"
     if ref[0] == "E":
@@ -120,7 +131,7 @@ def agrees(node_form, ref):
         if node_form[0] != "Q":
             return False, "kind"
         a, b = node_form[2], ref[2]
-        return (abs(a - b) <= 1e-12 + 1e-9 * max(abs(a), abs(b)) or (a != a and b != b)), f"{a} vs {b}"
+        return (abs(a - b) <= 1e-12 + 1e-9 * max(abs(a), abs(b), scale) or (a != a and b != b)), f"{a} vs {b}"
     if node_form[0] != "H":
         return False, "kind"
     got = node_form[2]
@@ -130,7 +141,7 @@ def agrees(node_form, ref):
         a = got.get(k)
         if a is None:
             return False, "hour missing"
-        if not (abs(a - b) <= 1e-12 + 1e-9 * max(abs(a), abs(b)) or (a != a and b != b)):
+        if not (abs(a - b) <= 1e-12 + 1e-9 * max(abs(a), abs(b), scale) or (a != a and b != b)):
             return False, f"{a} vs {b}"
     return True, ""
 
@@ -219,7 +230,7 @@ def run_task(task):
                             res["counters"]["not-defined-by-statement:" + op] = res["counters"].get("not-defined-by-statement:" + op, 0) + 1
                             continue
                         res["arith"] += 1
-                        ok, why = agrees(nf, ref)
+                        ok, why = agrees(nf, ref, magnitude_scale(lf, rf) if op in ("+", "-") else 0.0)
                         if not ok:
                             add({"clause": "recorded-operation-does-not-reproduce-value", "op": op, "where": where,
                                  "kinds": lf[0] + op + rf[0]},
